@@ -86,7 +86,43 @@ def bounded(tier, seed):
                          "symbols outside ACGU as well ('?' gap markers, lower case, '-', '.', '*'), different column separators and blank lines; the text written "
                          "back parses to the same entries; the dot-bracket has the text's sequence and length",
                          f"{len(texts)} texts", sig=repr, relates="from_string|BpSeq"))
+    # multi-strand dot-bracket text (observe_at: MultiStrandDotBracket.from_string): the strands of the text, in order, concatenated
+    multi = []
+    for k, st in enumerate(conv[:40]):
+        n = len(st)
+        cuts = sorted(rng.sample(range(1, n), min(n - 1, rng.randint(0, 3)))) if n > 1 else []
+        multi.append((st, tuple(cuts), k % 3, "".join(rng.choice("ACGUacguNRY-.T") for _ in st)))
+    out.append(run_cases("multi-strand-text", multi, multi_strand_check, lambda c: len(c[1]) >= 1,
+                         "a balanced dot-bracket cut into 1-4 strands, written as (>header,) sequence, structure lines -> MultiStrandDotBracket.from_string: strands "
+                         "in order with first/last/sequence/structure, whole sequence and structure are the concatenations, and BpSeq.from_dotbracket of it has "
+                         "exactly the pairs of the uncut string", f"{len(multi)} texts", sig=repr, relates="MultiStrandDotBracket|from_dotbracket"))
     return out
+
+
+def multi_strand_check(case):
+    from rnapolis.common import BpSeq, MultiStrandDotBracket
+    structure, cuts, style, seq = case
+    bounds = [0] + list(cuts) + [len(structure)]
+    parts = [(seq[a:b], structure[a:b]) for a, b in zip(bounds, bounds[1:])]
+    text = ""
+    for t, (sq, st) in enumerate(parts):
+        if style == 0 or (style == 2 and t % 2 == 0):
+            text += f">strand_{'ABCD'[t]}\n"
+        text += f"{sq}\n{st}" + ("\n" if (t + 1 < len(parts) or style != 1) else "")
+    m = MultiStrandDotBracket.from_string(text)
+    errs = []
+    if m.sequence != seq or m.structure != structure:
+        errs.append(f"whole sequence/structure {m.sequence!r}/{m.structure!r} are not the concatenations {seq!r}/{structure!r}")
+    want = [(a + 1, b, sq, st) for (a, b), (sq, st) in zip(zip(bounds, bounds[1:]), parts)]
+    got = [(x.first, x.last, x.sequence, x.structure) for x in m.strands]
+    if got != want:
+        errs.append(f"strands {got} instead of {want}")
+    if not errs:
+        b = BpSeq.from_dotbracket(m)
+        pairs = {(e.index_, e.pair) for e in b.entries if e.pair > e.index_}
+        if pairs != O.decode(structure):
+            errs.append(f"from_dotbracket pairs {sorted(pairs)} != {sorted(O.decode(structure))}")
+    return errs
 
 
 def bpseq_text_check(case):
@@ -114,6 +150,9 @@ def bpseq_text_check(case):
 
 def replay(inp):
     case = inp["case"]
+    if inp["check"] == "multi-strand-text":
+        errs = multi_strand_check((case[0], tuple(case[1]), case[2], case[3]))
+        return {"fails": bool(errs), "errors": errs[:3]}
     if inp["check"] == "bpseq-text":
         errs = bpseq_text_check((tuple(case[0]), case[1], case[2]))
         return {"fails": bool(errs), "errors": errs[:3]}
